@@ -15,6 +15,8 @@ COMMON_CORPUS = ["(?=)a{1,2}?b", "(?=)(a){0,2}?$", "\\ba{1,2}?b", "(?:x|(?!a))?a
                  # constructs the coverage measurement of the quick tier showed were never EXECUTED by the VM
                  # (always delegated): line anchors, word-start / word-end assertions, control escapes
                  "(?m)(?=)^a", "(?m:a$)(?=)", "(?m)(?<=^a)b", "(?m)(?:(?=)$\\n?)+", "(?=)\\<a", "a\\>(?=)", "(?<=\\<a)b", "(?=)\\n\\<", "(?s)(?=).a", "(?=)a\\tb", "(?i)(?=)(a)\\1"]
+# an assertion between two hard neighbours is compiled to Insn::Assertion and executed by the VM itself
+COMMON_CORPUS += [pre + "(a*)\\n?" + a + "\\1" for pre in ("", "(?m)") for a in ("^", "$", "\\b", "\\B", "\\<", "\\>", "\\A", "\\z")]
 
 
 def known_for(prop):
